@@ -32,6 +32,10 @@ META = {
                   "script_is_shortest (MINIMALITY, table not exhausted: the elements the script deletes+inserts are at most the "
                   "deletions+insertions of ANY edit path from the origin to the far corner; proof: chain-cost invariant of the "
                   "route table 2p+k / 2p-k+2delta, one walker step per change of diagonal, merge preserves the count). "
+                  "REAL ENVIRONMENTS (Diff/ModelEnv.v = envUnpickler's FunctionCode/Function cases): "
+                  "reason_names_every_differing_part_of_a_function_environment (for two environments built by the unpickler the "
+                  "reason names EVERY key of either environment at which they differ -- each key of the environment is one "
+                  "diffEnv has a name for -- and is never the catch-all 'environment changed'). "
                   "SEVERAL TARGETS AT ONCE (Diff/Sched.v): reason_independent_of_concurrent_targets (the loop of diffEnv that "
                   "collects the part names, run for any number of targets with its steps interleaved by ANY schedule, builds for "
                   "each target the reason diffEnv gives for it alone, given a reasons slice per target as in the code); "
@@ -42,8 +46,12 @@ META = {
                   "(thorough) as tuples, <=3/4 as lists, strings, bytes, mixed containers, nested tuples, dict pairs, depth-limit "
                   "cases, random longer sequences, and diffEnv on all subsets of the listed keys; that diffEnv/upToDate report for a "
                   "target what they report for it alone is checked on the real code by running those targets, and generated "
-                  "projects of real sibling targets (15 kinds of change), concurrently under a family of schedules and through the "
-                  "runner's own TargetEvaluating events, against the differing parts computed directly from the two environments.",
+                  "projects of real sibling targets (33 kinds of change, each of the nine parts also as the only part that differs), "
+                  "concurrently under a family of schedules and through the "
+                  "runner's own TargetEvaluating events, against the differing parts computed directly from the two environments "
+                  "over ALL their keys; the keys of real environments are compared with the model's unpickler, and the mapping diffs "
+                  "nested in the diff shown for a target are walked by a direct oracle. Dict values include None and the other "
+                  "values that read as nothing (present/absent decided by the look-up, never by the value), None is also a key.",
     "level_note": "Trusted: Coq kernel; the Go harness's rendering of values and diffs; starlark's EqualDepth/Index/Slice are "
                   "modelled for None/int/string/bytes/tuple/list/dict only (no floats, sets, user types) and validated by the "
                   "sweep. The faithfulness theorems are stated for runs that return a script; the totality theorems show that every "
@@ -84,6 +92,7 @@ def run(ctx):
            "VERIF_MAXLEN_OTHER": "3" if quick else "4",
            "VERIF_MAXLEN_NESTED": "2" if quick else "3",
            "VERIF_DICTKEYS": "3" if quick else "4",
+           "VERIF_NONEVALS": "3" if quick else "4",
            "VERIF_NRAND": "300" if quick else "3000",
            "VERIF_BIG": "1"}
     rc, o = ctx.go_overlay_test("diff", {"zz_verif_c16_test.go": os.path.join(HARNESS, "overlay/diff/zz_verif_c16_test.go")},
@@ -157,6 +166,7 @@ def run(ctx):
             cases.append(("env", "CEnv %s %s %s %s" % ({"0": "StampErr", "1": "StampEqual", "2": "StampDiffers"}[f[2]], f[3], f[4], exp), show))
     conc = []
     target_rows = 0
+    env_key_lists = []
     for src in (out2, out3):
         for line in open(src):
             f = line.rstrip("\n").split("\t")
@@ -168,6 +178,11 @@ def run(ctx):
                 dist[key] = dist.get(key, 0) + 1
             elif f[0] == "ORACLE" and src == out3:
                 oracles.append(f)
+            elif f[0] == "ENVKEYS":
+                ks = unhex(f[1]).split(b"|")
+                env_key_lists.append([k.decode("latin-1") for k in ks])
+                cases.append(("envkeys", "CEnvKeys %s" % cq_list([cq_bytes(k) for k in ks], "str"),
+                              ["keys of the environment of real target " + f[2]] + [k.decode("latin-1") for k in ks]))
     cases.append(("keys", "CKeys %s" % cq_list([cq_bytes(k) for k in keys], "str"), ["functionEnvKeys"] + [k.decode() for k in keys]))
 
     src_rs = route_size_from_source()
@@ -183,11 +198,13 @@ def run(ctx):
         "mixed containers (length <= 2); every pair of tuples of length <= %s over 3 nested tuples and of length <= %s over "
         "7 mixed elements (ints, strings, tuples, a list, None), also as lists; every pair of dicts assigning "
         "{absent,1,2,(0,1)} to %s keys (new dict built in reverse key order) and 9^4 two-key dicts with nested tuple/dict/"
-        "string values; 11^2 literal pairs; nesting depths 7..12 around the EqualDepth limit; %s seeded random sequences "
+        "string values; every pair of dicts assigning {absent,None,1%s} to the keys None,'k',1 (a key bound to None kept, "
+        "changed, removed, added), each also one level down (value of an outer dict's key; only element of a tuple), and one "
+        "key going between any two of {absent,None,0,'',b'',(),[],{},1} next to a key unchanged/changed/added/removed/None; 11^2 literal pairs; nesting depths 7..12 around the EqualDepth limit; %s seeded random sequences "
         "of length <= 12; 3 pairs of ~1500-element tuples that exhaust the route table (oracle only); diffEnv on all 2^9 "
-        "subsets of functionEnvKeys x (unlisted key differs or not); the same %d hand-built targets checked CONCURRENTLY as siblings (8 schedules: 2..64 goroutines x GOMAXPROCS 1..ncpu x seeded orders) and %s generated projects of ~16 real sibling targets x 15 change kinds (constants, universals, globals, predeclared attributes, nested functions, default parameters, free variables, code) checked alone, concurrently through upToDate (5 schedules each) and through the runner's TargetEvaluating events (%s dry runs each) against the parts computed directly from the two environments. distinct = by full case text; non-trivial = not equal"
+        "subsets of functionEnvKeys x (unlisted key differs or not); the same %d hand-built targets checked CONCURRENTLY as siblings (8 schedules: 2..64 goroutines x GOMAXPROCS 1..ncpu x seeded orders) and %s generated projects of real sibling targets (the first with all 33 change kinds, the second with the 27 that leave the module's tables alone so that a part is the ONLY one that differs, the others 16 seeded: constants, universals, globals, predeclared modules and attributes, nested functions, the target's own default parameters, captured variables of closures, None-valued globals/defaults/captured variables, code) checked alone against the parts computed from ALL keys of the two environments (not only the keys diffEnv has a name for), the keys of every real environment compared with the model's envUnpickler (Diff/ModelEnv.v), every mapping diff nested in the diff shown for a target walked (an edit exactly for the keys removed/added/changed), concurrently through upToDate (5 schedules each) and through the runner's TargetEvaluating events (%s dry runs each) against the parts computed directly from the two environments. distinct = by full case text; non-trivial = not equal"
         % (env["VERIF_MAXLEN"], env["VERIF_MAXLEN_OTHER"], int(env["VERIF_MAXLEN_NESTED"]) + 1, env["VERIF_MAXLEN_NESTED"],
-           env["VERIF_DICTKEYS"], env["VERIF_NRAND"], sum(1 for c in cases if c[0] == "env"),
+           env["VERIF_DICTKEYS"], "" if quick else ",0", env["VERIF_NRAND"], sum(1 for c in cases if c[0] == "env"),
            "3" if quick else "8", "40" if quick else "150"))
     ctx.coverage["exhaustive"] = True
     ctx.coverage["correspondence"]["distribution"] = dist
@@ -195,6 +212,7 @@ def run(ctx):
     ctx.coverage["correspondence"]["concurrent_sibling_schedules"] = {
         "schedules": len(conc), "checks": sum(int(c[2]) for c in conc), "failures": sum(int(c[3]) for c in conc),
         "real_targets": target_rows, "by_family": conc}
+    ctx.coverage["correspondence"]["keys_of_real_environments"] = env_key_lists
     ctx.coverage["correspondence"]["route_table_exhaustion_cases"] = [b[1:] for b in big]
     step = max(1, len(cases) // 5)
     ctx.add_samples([c[2] for c in cases[step // 2::step]][:5])
@@ -214,7 +232,7 @@ def run(ctx):
                 x = head.replace(" (hex)", "") + ":\n" + unhex(hx).decode("latin-1")
             inputs.append(x[:6000])
         what = "implementation violates C16 oracle %s" % f[1]
-        if "sibling" in f[1] or "runner" in f[1]:
+        if "sibling" in f[1] or "runner" in f[1] or (len(f) > 2 and f[2].startswith("BUILD.dawn v")):
             what += ": " + " | ".join(f[4:])[:600]
         ctx.violation(what,
                       {"oracle": f[1], "inputs": inputs, "observed": [x[:2000] for x in f[4:]],
